@@ -731,7 +731,7 @@ def explore(ctx, factor, bs):
     old_tmp = tempfile.tempdir
     tempfile.tempdir = str(private_tmp)
     try:
-        n = ctx.pick(56, 240) * factor
+        n = ctx.pick(64, 240) * factor
         cases = c14_gen.batch(ctx.rng, n, big=not ctx.quick())
         ref = phase_seeds(ctx, wd, cases, ctx.pick(8, 64), ctx.pick(8, 32))
         t0 = timed(ctx, "seeds", t0)
